@@ -315,8 +315,8 @@ def run(tier):
 
     def process(batch, corr_budget):
         """batch: list of (tag, text, exec?)  -> run the implementation, judge, retain some for the correspondence"""
-        payload = [{'text': t, 'validate': True, 'lint': True, 'exec': ENVS if ex else [ENVS[0]], 'canon': False, 'max': 300}
-                   for _, t, ex in batch]
+        payload = [{'text': t, 'validate': not tag.startswith('shape-function:d4'), 'lint': True,
+                    'exec': ENVS if ex is True else ex, 'canon': False, 'max': 300} for tag, t, ex in batch]
         results = core.run_impl('c07_lower', payload)
         for (tag, text, _), res in zip(batch, results):
             g = tag.split(':')[0]
@@ -326,7 +326,7 @@ def run(tier):
         if len(idx) > corr_budget:
             idx = sorted(r.sample(idx, corr_budget))
         for i in idx:
-            if len(batch[i][1]) <= 4000:
+            if len(batch[i][1]) <= (2000 if quick else 4000):
                 keep.append((batch[i][0], batch[i][1]))
         if batch and len(samples) < 8:
             samples.append({'gen': batch[0][0], 'text': batch[len(batch) // 2][1], 'impl': results[len(batch) // 2]})
@@ -335,13 +335,13 @@ def run(tier):
     corpus = []
     for path in sorted(glob.glob(os.path.join(core.REPO, 'src', 'bare_script', 'include', '*.bare'))):
         with open(path, encoding='utf-8') as fh:
-            corpus.append(('corpus:' + os.path.basename(path), fh.read(), False))
+            corpus.append(('corpus:' + os.path.basename(path), fh.read(), [ENVS[0]]))
     for path in sorted(glob.glob(os.path.join(core.VERIF, 'corpus', PID, '*.json'))):
         import json
         with open(path, encoding='utf-8') as fh:
             for item in json.load(fh):
                 corpus.append(('corpus:' + os.path.basename(path), item['text'], True))
-    process(corpus, 0 if quick else 3)
+    process(corpus, 10**6)     # only texts <= 4000 chars go to the Coq correspondence
 
     # 1. exhaustive shapes, global scope and inside a function
     n_shapes = 0
@@ -353,35 +353,41 @@ def run(tier):
             st = build(ch)
             if d <= 2:
                 shallow.append(ch)
-            batch.append((f'shape-global:d{d}', text_of(st), True))
-            batch.append((f'shape-function:d{d}', text_of(in_function(st)), True))
+            envs = True if d <= 3 else [ENVS[1 + n_shapes % 3]]
+            batch.append((f'shape-global:d{d}', text_of(st), envs))
+            batch.append((f'shape-function:d{d}', text_of(in_function(st)), envs))
             if len(batch) >= 60000:
-                process(batch, 100)
+                process(batch, 40)
                 batch = []
-        process(batch, {1: 10**6, 2: 800 if not quick else 50, 3: 1000 if not quick else 50, 4: 1200}[d])
+        process(batch, {1: 10**6, 2: 500 if not quick else 50, 3: 600 if not quick else 50, 4: 300}[d])
 
     # 2. several functions in one script (exhaustive over depth<=2 shapes x contexts x layouts)
     batch = [(tag, text_of(st), True) for tag, st in multi_function_scripts(shallow)]
-    process(batch, 60 if quick else 800)
+    process(batch, 60 if quick else 400)
 
     # 3. random deeper structured programs
     batch = []
     for _ in range(1500 if quick else 20000):
         prog = sg.gen_program(r, max_depth=r.choice([3, 4, 5, 6]), allow_while_continue=True)
         batch.append(('random', text_of(prog), True))
-    process(batch, 25 if quick else 300)
+    process(batch, 15 if quick else 150)
 
     # 4. arbitrary line sequences (soup) and mutated programs (malformed stream)
-    batch = [('soup', soup(r), True) for _ in range(6000 if quick else 80000)]
-    process(batch, 60 if quick else 800)
+    batch = [('soup', soup(r), True) for _ in range(6000 if quick else 40000)]
+    process(batch, 60 if quick else 400)
     pool = [t for _, t in keep]
-    batch = [('mutated', mutate(r, r.choice(pool)), True) for _ in range(3000 if quick else 40000)]
-    process(batch, 40 if quick else 500)
+    batch = [('mutated', mutate(r, r.choice(pool)), True) for _ in range(3000 if quick else 20000)]
+    process(batch, 40 if quick else 300)
 
     timing['oracle'] = round(time.time() - t0 - timing['prove'], 1)
     # ---- correspondence: model parse_script = implementation parse_script, and the model's own output passes the checks
     corr_n = 0
     if model_ok and keep:
+        # big cases first, dealt round-robin over the shards so that no shard gets all the long programs
+        shard = 20 if quick else 60
+        nsh = max(1, -(-len(keep) // shard))
+        order = sorted(range(len(keep)), key=lambda i: -len(keep[i][1]))
+        keep = [keep[i] for k in range(nsh) for i in order[k::nsh]]
         texts = [t for _, t in keep]
         impl = core.run_impl('c07_lower', [{'text': t, 'canon': True} for t in texts])
         terms = []
@@ -394,7 +400,7 @@ def run(tier):
             wfb = 'true' if uses_reserved(t) else 'script_wfb c'
             terms.append(f'(let r := parse_script {ch} 1 in sres_eqb script_eqb r {sg.parse_result_coq(res)} && '
                          f'match r with ROk c => {wfb} && script_schema c | _ => true end)')
-        bad, errors = core.coq_bools('c07', 'Model.Base Model.Num Model.ExprParser Model.Script Model.Lower', terms, shard=20 if quick else 60)
+        bad, errors = core.coq_bools('c07', 'Model.Base Model.Num Model.ExprParser Model.Script Model.Lower', terms, shard=shard)
         corr_n = len(terms)
         for k, log in errors:
             chk.corr_fail.append({'class': 'case-file-did-not-evaluate', 'shard': k, 'log': log[-800:]})
